@@ -7,6 +7,18 @@ in a child goroutine, inside a child process so that panics in goroutines Vouch 
 too); TLC validates the recorded trace against Trace_Robustness, whose vocabulary contains the event
 Crash but no action producing it.
 
+HISTORIES (spec/RobustnessInst.tla): the objects that consume outside data live as long as the process, so
+what one call leaves in such an object (a memo, a flag, a lock) is a second path from an outside input
+to code.  TLC generates histories of calls on ONE long-lived instance per scenario (Scen_RobustnessInst:
+for every lattice point s the histories  s, s, probe, t  and  s||t, s||s, s||probe, probe  - the first
+call of a pair is held at a gate inside the instance's surroundings while the second runs - plus random
+heterogeneous histories); the drivers keep one real instance per history; TLC validates the recorded
+history against Trace_RobustnessInst: no Crash, no Hung (a call that never came back), every call ends
+ok / error / fallback, and the well-formed probe input yields after any history what it yields on a
+fresh instance (HistoryIndependent).  Control designs that are right on every fresh instance
+(RobustnessMemo: nil memo, poisoned flag, kept lock, shared scratch) must be rejected by TLC: vacuity
+self-checks of the history invariants.
+
 Own loop instead of vf.conformance (one crash site is usually reached by many lattice points):
   * the scenarios whose trace has no Crash line are validated in one batch (rejections there are
     handled like in vf.conformance: attributed, confirmed, reported);
@@ -20,6 +32,7 @@ import os
 import random
 import subprocess
 import time
+from concurrent.futures import ThreadPoolExecutor
 import vf
 
 PID = "C16"
@@ -47,6 +60,11 @@ BASELINE = {
     "submitclassify": {"op": "messages", "server": "lighthouse", "err": "known"},
 }
 MAX_GROUPS = 16
+LONG_LIVED = ["execservice", "graffiti", "builderbid", "proposalbest", "proposer", "attester", "aggregator",
+              "syncmessenger", "syncaggregator", "mergeduties", "cacheevents", "submitclassify"]
+# control designs (spec/RobustnessMemo.tla): cfg suffix -> the invariant TLC must report (None = must pass)
+SELF_CHECKS = {"fresh": None, "shared_seq": None, "nilmemo": "KeepsRunning", "poison": "HistoryIndependent",
+               "lock": "MTotal", "shared": "KeepsRunning"}
 
 
 def eps():
@@ -99,27 +117,37 @@ def driver(scenarios, tag, timeout=1500):
     return rows
 
 
+def is_history(s):
+    return bool(s.get("steps"))
+
+
 def sig_of(s):
     sig = {"ep": s["ep"]}
-    sig.update(s["shape"])
+    if is_history(s):
+        sig["history"] = s.get("tmpl", "")
+        sig.update(s["of"])
+    else:
+        sig.update(s["shape"])
     return sig
 
 
 def write_cfgs(active):
     """The cfg files name every entry point; a development run restricted with VERIF_C16_EPS uses
     generated copies (the committed cfgs are the full set)."""
+    bases = ("Scen_Robustness", "Trace_Robustness", "Scen_RobustnessInst", "Scen_RobustnessInst_random", "Trace_RobustnessInst")
     if active == ALL_EPS:
-        return "Scen_Robustness.cfg", "Trace_Robustness.cfg"
-    sset = "{" + ", ".join('"%s"' % e for e in active) + "}"
-    names = []
-    for base in ("Scen_Robustness", "Trace_Robustness"):
+        return {b: b + ".cfg" for b in bases}
+    names = {}
+    for base in bases:
+        eps_ = [e for e in active if e in LONG_LIVED] if "Inst" in base else active
+        sset = "{" + ", ".join('"%s"' % e for e in eps_) + "}"
         txt = open(os.path.join(vf.SPEC, base + ".cfg")).read()
         lines = [("  EPs = " + sset) if l.strip().startswith("EPs =") else l for l in txt.splitlines()]
         name = base + "_dev.cfg"
         with open(os.path.join(vf.SPEC, name), "w") as fh:
             fh.write("\n".join(lines) + "\n")
-        names.append(name)
-    return names[0], names[1]
+        names[base] = name
+    return names
 
 
 def scenarios(tier, scen_cfg):
@@ -143,6 +171,60 @@ def scenarios(tier, scen_cfg):
     return [{"sc": i + 1, "ep": c["ep"], "shape": c["shape"]} for i, c in enumerate(calls)]
 
 
+# quick tier: share of the lattice points of an entry point whose histories are run (seeded); the degenerate
+# relay-key / relay-address / document shapes whose first call can leave something behind are always kept
+QUICK_SEQ = {"attester": 0.34, "proposalbest": 0.35, "graffiti": 0.35, "submitclassify": 0.25, "execservice": 0.35,
+             "proposer": 0.5, "mergeduties": 0.6, "syncmessenger": 0.6, "builderbid": 0.35}
+QUICK_OVERLAP = 0.12
+QUICK_RANDOM = 60
+THOROUGH_RANDOM = 400
+
+
+def always(h):
+    """Histories that the quick tier never drops: relay keys and keyed relay addresses (both sources)."""
+    s = h["of"]
+    return (h["ep"] == "builderbid" and (s.get("pkcfg") == "badpoint" or s.get("addr") in ("badkeyed", "shortkeyed"))) or \
+           (h["ep"] == "execservice" and (s.get("pk") == "badpoint" or s.get("addr") in ("badkeyed", "shortkeyed")))
+
+
+def histories(tier, cfgs):
+    """Histories on one long-lived instance, generated by TLC: the two templates for every lattice point of every
+    long-lived entry point (exhaustive; the partner input t is drawn by TLC, -seed = VERIF_SEED) and random ones."""
+    active = [e for e in eps() if e in LONG_LIVED]
+    if not active:
+        return []
+    r = vf.tlc(PID, "scen-inst", "Scen_RobustnessInst", cfgs["Scen_RobustnessInst"], workers=1, timeout=600, aseed=vf.seed())
+    if r["timed_out"] or r["kind"] in ("invariant", "action_property", "error", "deadlock"):
+        raise vf.Broken("history generation failed (%s %s):\n%s" % (r["kind"], r["violated"], r["out"][-3000:]))
+    hs = [h for h in vf.tlc_emitted(r["out"]) if isinstance(h, dict) and h.get("steps")]
+    hs.sort(key=lambda h: (h["ep"], h["tmpl"], json.dumps(h["of"], sort_keys=True)))
+    vf.log("TLC generated %d histories from Scen_RobustnessInst/%s" % (len(hs), cfgs["Scen_RobustnessInst"]))
+    nrandom = THOROUGH_RANDOM
+    if tier == "quick":
+        rnd = random.Random(vf.seed() * 7919 + 1)
+        keep = []
+        for h in hs:
+            share = QUICK_SEQ.get(h["ep"], 1.0) if h["tmpl"] == "seq" else QUICK_OVERLAP
+            if always(h) or h["of"] == h["inst"] and h["tmpl"] == "seq" or rnd.random() < share:
+                keep.append(h)
+        hs = keep
+        nrandom = QUICK_RANDOM
+    rs = vf.tlc_scenarios(PID, "Scen_RobustnessInst", cfgs["Scen_RobustnessInst_random"], num=nrandom, depth=8,
+                          name="scen-inst-random", timeout=300)
+    rs = [h for h in rs if isinstance(h, dict) and h.get("steps")]
+    # one behaviour prints its last two states: keep the longest plan of each
+    best = {}
+    for h in rs:
+        k = json.dumps([h["ep"], h["inst"], h["steps"][:2]], sort_keys=True)
+        if k not in best or len(h["steps"]) > len(best[k]["steps"]):
+            best[k] = h
+    rs = sorted(best.values(), key=lambda h: json.dumps(h, sort_keys=True))[:nrandom]
+    out = []
+    for h in hs + rs:
+        out.append({"sc": 0, "ep": h["ep"], "tmpl": h["tmpl"], "inst": h["inst"], "of": h["of"], "steps": h["steps"]})
+    return out
+
+
 def strict(rows):
     """VERIF_C16_DECODER_PANIC=violation: a panic inside the HTTP decoding layer of a client library beneath a call
     Vouch makes is treated as a Crash of Vouch (the process does die) instead of an input outside the property's
@@ -164,102 +246,85 @@ def split(rows):
     return per
 
 
-def validate(rows, trace_cfg, name):
+def validate(rows, module, trace_cfg, name):
     tp = os.path.join(vf.outdir(PID), "validate-%s.ndjson" % name)
     vf.write_ndjson(tp, rows)
-    return vf.validate_trace(PID, "Trace_Robustness", trace_cfg, tp, name="trace-" + name, timeout=900)
+    return vf.validate_trace(PID, module, trace_cfg, tp, name="trace-" + name, timeout=900)
 
 
 def crash_of(rows):
+    """The event of a recorded scenario that no action of the specification produces: Crash, or a call that never came
+    back (Hung: a call of a history; Stuck: the single call of a lattice scenario).  Only a verdict if it reproduces
+    when the scenario is re-run alone."""
     for r in rows:
-        if r.get("ev") == "Crash":
+        if r.get("ev") in ("Crash", "Hung", "Stuck"):
             return r
     return None
 
 
-def check(v, sc, trace_cfg, full=True):
-    by_id = {s["sc"]: s for s in sc}
-    rows = strict(driver(sc, "batch"))
-    per = split(rows)
-    missing = [i for i in by_id if i not in per or len(per[i]) < 3]
-    stuck = [r for r in rows if r.get("ev") == "Stuck"]
-    if stuck:
-        raise vf.Broken("scenario(s) did not end within the watchdog time: %s" % [by_id[r["sc"]] for r in stuck[:3]])
-    if missing:
-        raise vf.Broken("driver produced no complete trace for scenarios %s" % missing[:5])
-    v.coverage["evaluations"] += len(sc)
-    # harness sanity: the benign shape of every entry point reaches the end of the real code path
-    if full:
-        for s in sc:
-            if BASELINE.get(s["ep"]) == s["shape"]:
-                out = [r for r in per[s["sc"]] if r.get("ev") in ("Outcome", "Crash")]
-                if not out or out[-1].get("ev") != "Outcome" or out[-1].get("outcome") != "ok":
-                    c = out[-1] if out else None
-                    if not (c and c.get("ev") == "Crash"):
-                        raise vf.Broken("baseline shape of %s did not end ok: %s" % (s["ep"], json.dumps(c)))
-    nontrivial = set()
-    for s in sc:
-        evs = [r.get("ev") for r in per[s["sc"]]]
-        if "Outcome" in evs or "Crash" in evs:      # the input was deliverable and reached Vouch
-            nontrivial.add(json.dumps(sig_of(s), sort_keys=True))
-    v.coverage["distinct_nontrivial"] += len(nontrivial)
-    for s in sc[:2]:
-        v.coverage["samples"].append({"scenario": s, "trace": per[s["sc"]]})
-    outcomes = {}
-    for r in rows:
-        if r.get("ev") in ("Outcome", "Undeliverable", "Crash", "DecoderPanic"):
-            k = (r.get("ep"), r.get("outcome") or r["ev"].lower())
-            outcomes[k] = outcomes.get(k, 0) + 1
-    v.coverage["outcomes"] = {"%s/%s" % k: n for k, n in sorted(outcomes.items())}
-    dps = {}
-    for r in rows:
-        if r.get("ev") == "DecoderPanic":
-            k = "%s: %s (called from %s)" % (r.get("ep"), r.get("decoder"), r.get("via"))
-            dps.setdefault(k, []).append(by_id[r["sc"]]["shape"])
-    if dps:
-        v.coverage["decoder_panics_outside_property"] = {k: {"shapes": len(x), "example": x[0]} for k, x in sorted(dps.items())}
-        for k, x in sorted(dps.items()):
-            vf.log("observation (outside C16's quantifier): client library decoder panics, %s, %d shape(s)" % (k, len(x)))
+def explain(s, rows, res):
+    """Text for a history that TLC rejected without a Crash / Hung line (the verdict is TLC's; this only names the line)."""
+    why = res["why"]
+    if not is_history(s) or not res.get("line"):
+        return why
+    bad = rows[res["line"] - 1] if res["line"] - 1 < len(rows) else {}
+    fresh = [r for r in rows if r.get("ev") == "Fresh"]
+    if bad.get("ev") == "Return" and fresh:
+        call = [r for r in rows if r.get("ev") == "Call" and r.get("call") == bad.get("call")]
+        if call and call[0].get("shape") == fresh[0].get("shape") and bad.get("outcome") != fresh[0].get("outcome"):
+            why += ("; HistoryIndependent: the probe input %s ends %s (%s) on a fresh instance and %s (%s) as call %s of this history"
+                    % (json.dumps(fresh[0]["shape"], sort_keys=True), fresh[0]["outcome"], fresh[0].get("detail"),
+                       bad["outcome"], bad.get("detail"), bad["call"]))
+    return why
 
-    clean = [i for i in sorted(per) if crash_of(per[i]) is None]
-    crashed = [i for i in sorted(per) if crash_of(per[i]) is not None]
 
-    # 1. everything without a Crash line: one batch; anything rejected there is handled one by one
-    ids = list(clean)
+def judge(v, kind, ids, by_id, per, module, trace_cfg, failures, first=None):
+    """Validate the recorded scenarios of one kind (lattice / history) against their trace specification; first = the
+    result of the validation of all scenarios without a Crash / Hung line, if it has been run already."""
+    clean = [i for i in ids if crash_of(per[i]) is None]
+    crashed = [i for i in ids if crash_of(per[i]) is not None]
+
+    # 1. everything without a Crash / Hung line: one batch; anything rejected there is handled one by one
+    rest = list(clean)
     accepted = 0
-    failures = 0
-    while ids:
-        res = validate([r for i in ids for r in per[i]], trace_cfg, "clean")
+    while rest:
+        res, first = first or validate([r for i in rest for r in per[i]], module, trace_cfg, "clean-" + kind), None
         if res["accepted"]:
-            accepted += len(ids)
+            accepted += len(rest)
             break
-        sel = [r for i in ids for r in per[i]]
+        sel = [r for i in rest for r in per[i]]
         sid = vf.scenario_of_line(sel, res["line"])
-        pos = ids.index(sid)
+        pos = rest.index(sid)
         accepted += pos
-        rr = strict(driver([by_id[sid]], "confirm"))
-        res2 = validate(rr, trace_cfg, "confirm")
-        if res2["accepted"]:
+        confirmed = None
+        for attempt in range(3 if kind == "history" else 1):
+            rr = strict(driver([by_id[sid]], "confirm"))
+            res2 = validate(rr, module, trace_cfg, "confirm")
+            if not res2["accepted"]:
+                confirmed = (rr, res2)
+                break
+        if confirmed is None:
             v.unreproduced.append("scenario %s: %s" % (sid, res["why"]))
         else:
-            failures += 1
-            d = vf.save_replay(PID, failures, by_id[sid], rr, res2["why"])
-            v.report(sig_of(by_id[sid]), "%s; scenario %s" % (res2["why"], json.dumps(by_id[sid])), d)
-        ids = ids[pos + 1:]
-        if failures >= 5:
+            rr, res2 = confirmed
+            failures[0] += 1
+            why = explain(by_id[sid], rr, res2)
+            d = vf.save_replay(PID, failures[0], by_id[sid], rr, why)
+            v.report(sig_of(by_id[sid]), "%s; scenario %s" % (why, json.dumps(by_id[sid])[:1500]), d)
+        rest = rest[pos + 1:]
+        if failures[0] >= 5:
             break
     v.coverage["traces_validated_against_impl"] += accepted
 
-    # 2. scenarios with a Crash line, grouped by (open finding, entry point, frame)
+    # 2. scenarios with a Crash / Hung line, grouped by (open finding, entry point, frame)
     groups = {}
     for i in crashed:
         c = crash_of(per[i])
         f = vf.match_finding(PID, sig_of(by_id[i]))
-        key = (f["id"] if f else "", c.get("ep"), c.get("frame"))
+        key = (f["id"] if f else "", c.get("ep"), c.get("frame") or c.get("ev"))
         groups.setdefault(key, []).append(i)
     if crashed:
-        vf.log("%d scenario(s) crashed, %d distinct (finding, entry point, frame) group(s)" % (len(crashed), len(groups)))
-    n = failures
+        vf.log("%s: %d scenario(s) crashed / hung, %d distinct (finding, entry point, frame) group(s)" % (kind, len(crashed), len(groups)))
     for key in sorted(groups)[:MAX_GROUPS]:
         members = groups[key]
         rep = members[0]
@@ -272,21 +337,122 @@ def check(v, sc, trace_cfg, full=True):
         if rr is None:
             v.unreproduced.append("scenario %s: crash %s did not reproduce" % (rep, key))
             continue
-        res2 = validate(rr, trace_cfg, "confirm-crash")
+        res2 = validate(rr, module, trace_cfg, "confirm-crash")
         if res2["accepted"]:
-            raise vf.Broken("trace with a Crash line was accepted by the trace specification")
+            raise vf.Broken("trace with a Crash / Hung line was accepted by the trace specification")
         c = crash_of(rr)
-        n += 1
-        shapes = [by_id[i]["shape"] for i in members]
-        note = "%s\nCrash: %s\nframe: %s\nfatal (process died): %s\n%d shape(s) of entry point %s reach this crash:\n%s" % (
-            res2["why"], c.get("text"), c.get("frame"), c.get("fatal"), len(members), key[1],
+        failures[0] += 1
+        if kind == "history":
+            shapes = [{"tmpl": by_id[i].get("tmpl"), "of": by_id[i]["of"]} for i in members]
+            done = [r for r in rr if r.get("ev") in ("Call", "Return", "Held")]
+            story = " ".join("%s%s%s" % ({"Call": "call", "Return": "ret", "Held": "held"}[r["ev"]], r.get("call"),
+                                         ("=" + r["outcome"]) if r.get("outcome") else "") for r in done)
+            what = "%s on the long-lived instance, call(s) in flight %s, after: %s" % (c["ev"], c.get("calls"), story)
+        else:
+            shapes = [by_id[i]["shape"] for i in members]
+            what = "Crash" if c["ev"] == "Crash" else "the duty never ended (%s)" % c["ev"]
+        note = "%s\n%s: %s\nframe: %s\nfatal (process died): %s\n%d scenario(s) of entry point %s reach this:\n%s" % (
+            res2["why"], what, c.get("text"), c.get("frame"), c.get("fatal"), len(members), key[1],
             "\n".join(json.dumps(x, sort_keys=True) for x in shapes[:60]))
-        d = vf.save_replay(PID, n, by_id[rep], rr, note)
-        v.report(sig_of(by_id[rep]), "Crash in %s at %s: %s (%d shape(s), e.g. %s)" % (
-            key[1], c.get("frame"), c.get("text"), len(members), json.dumps(by_id[rep]["shape"], sort_keys=True)), d)
+        d = vf.save_replay(PID, failures[0], by_id[rep], rr, note)
+        where = ("at %s: %s" % (c.get("frame"), c.get("text"))) if c["ev"] == "Crash" else \
+            "call %s did not come back within the watchdog time (something an earlier call kept?)" % c.get("call", 1)
+        v.report(sig_of(by_id[rep]), "%s in %s %s (%d scenario(s), e.g. %s)" % (
+            what, key[1], where, len(members), json.dumps(shapes[0], sort_keys=True)), d)
     if len(groups) > MAX_GROUPS:
         vf.log("stopping after %d crash groups (%d more)" % (MAX_GROUPS, len(groups) - MAX_GROUPS))
+
+
+def check(v, sc, cfgs, full=True):
+    by_id = {s["sc"]: s for s in sc}
+    rows = strict(driver(sc, "batch"))
+    per = split(rows)
+    missing = [i for i in by_id if i not in per or len(per[i]) < 3]
+    if missing:
+        raise vf.Broken("driver produced no complete trace for scenarios %s" % missing[:5])
+    v.coverage["evaluations"] += len(sc)
+    lattice = [s for s in sc if not is_history(s)]
+    hist = [s for s in sc if is_history(s)]
+    # harness sanity: the benign shape of every entry point reaches the end of the real code path
+    if full:
+        for s in lattice:
+            if BASELINE.get(s["ep"]) == s["shape"]:
+                out = [r for r in per[s["sc"]] if r.get("ev") in ("Outcome", "Crash")]
+                if not out or out[-1].get("ev") != "Outcome" or out[-1].get("outcome") != "ok":
+                    c = out[-1] if out else None
+                    if not (c and c.get("ev") == "Crash"):
+                        raise vf.Broken("baseline shape of %s did not end ok: %s" % (s["ep"], json.dumps(c)))
+    nontrivial = set()
+    for s in lattice:
+        evs = [r.get("ev") for r in per[s["sc"]]]
+        if "Outcome" in evs or "Crash" in evs:      # the input was deliverable and reached Vouch
+            nontrivial.add(json.dumps(sig_of(s), sort_keys=True))
+    hstats = {"histories": len(hist), "calls": 0, "calls_held_at_a_gate": 0, "probe_calls_compared_with_fresh": 0, "by_entry_point": {}}
+    for s in hist:
+        rs = per[s["sc"]]
+        returned = [r for r in rs if r.get("ev") == "Return"]
+        hstats["calls"] += len([r for r in rs if r.get("ev") == "Call"])
+        hstats["calls_held_at_a_gate"] += len([r for r in rs if r.get("ev") == "Held"])
+        fresh = [r for r in rs if r.get("ev") == "Fresh"]
+        if fresh:
+            shapes = {r["call"]: r["shape"] for r in rs if r.get("ev") == "Call"}
+            hstats["probe_calls_compared_with_fresh"] += len([r for r in returned if shapes.get(r["call"]) == fresh[0]["shape"]])
+        k = "%s/%s" % (s["ep"], s.get("tmpl"))
+        hstats["by_entry_point"][k] = hstats["by_entry_point"].get(k, 0) + 1
+        if len(returned) >= 2 or crash_of(rs) is not None:   # state could be carried from one call to a later one
+            nontrivial.add(json.dumps(sig_of(s), sort_keys=True))
+    if hist:
+        v.coverage["histories"] = hstats
+    v.coverage["distinct_nontrivial"] += len(nontrivial)
+    for s in lattice[:2] + hist[:1]:
+        v.coverage["samples"].append({"scenario": s, "trace": per[s["sc"]]})
+    outcomes = {}
+    for r in rows:
+        if r.get("ev") in ("Outcome", "Return", "Undeliverable", "Crash", "Hung", "Stuck", "DecoderPanic"):
+            k = (r.get("ep"), r.get("outcome") or r["ev"].lower())
+            outcomes[k] = outcomes.get(k, 0) + 1
+    v.coverage["outcomes"] = {"%s/%s" % k: n for k, n in sorted(outcomes.items())}
+    dps = {}
+    for r in rows:
+        if r.get("ev") == "DecoderPanic":
+            k = "%s: %s (called from %s)" % (r.get("ep"), r.get("decoder"), r.get("via"))
+            s = by_id[r["sc"]]
+            dps.setdefault(k, []).append(s.get("shape") or s.get("of"))
+    if dps:
+        v.coverage["decoder_panics_outside_property"] = {k: {"shapes": len(x), "example": x[0]} for k, x in sorted(dps.items())}
+        for k, x in sorted(dps.items()):
+            vf.log("observation (outside C16's quantifier): client library decoder panics, %s, %d scenario(s)" % (k, len(x)))
+
+    failures = [0]
+    kinds = [("lattice", sorted(s["sc"] for s in lattice), "Trace_Robustness"), ("history", sorted(s["sc"] for s in hist), "Trace_RobustnessInst")]
+    kinds = [k for k in kinds if k[1]]
+
+    def batch(k):   # the two big validations side by side
+        clean = [r for i in k[1] if crash_of(per[i]) is None for r in per[i]]
+        return validate(clean, k[2], cfgs[k[2]], "clean-" + k[0]) if clean else None
+    with ThreadPoolExecutor(max_workers=2) as ex:
+        firsts = list(ex.map(batch, kinds))
+    for k, first in zip(kinds, firsts):
+        judge(v, k[0], k[1], by_id, per, k[2], cfgs[k[2]], failures, first)
     return rows
+
+
+def self_checks(v):
+    """The control designs of spec/RobustnessMemo.tla: right on every fresh instance, wrong over histories / overlap.
+    TLC must say exactly that; anything else means the history invariants have lost their teeth (broken run)."""
+    def one(name):
+        return name, vf.tlc(PID, "memo-" + name, "RobustnessMemo", "MC_RobustnessMemo_%s.cfg" % name, workers=2, timeout=300)
+    res = {}
+    with ThreadPoolExecutor(max_workers=6) as ex:
+        for name, r in ex.map(one, sorted(SELF_CHECKS)):
+            want = SELF_CHECKS[name]
+            got = r["violated"] if not r["ok"] else None
+            if r["timed_out"] or r["kind"] == "error" or got != want:
+                raise vf.Broken("self-check RobustnessMemo/%s: expected %s, TLC reports %s (%s); see %s/tlc.out" % (
+                    name, want or "no violation", got or "no violation", r["kind"], r["dir"]))
+            res[name] = "%s (%d states)" % (("rejected: " + want) if want else "passes", r["distinct"])
+    v.coverage["self_checks"] = res
+    vf.log("control designs (RobustnessMemo): " + ", ".join("%s %s" % (k, x) for k, x in sorted(res.items())))
 
 
 def run(tier):
@@ -296,26 +462,47 @@ def run(tier):
         "go-eth2-client / go-builder-client HTTP clients decode from them",
         "signer, accounts, submitters, scheduler and clock are fakes at Vouch's interfaces",
         "shapes built as Go values that only a decoder could produce are gated: kept only if the real decoder delivers them",
+        "histories: call k of a history is for a later slot / epoch / block height than call k-1 (as in production); relays, "
+        "relay keys, nodes, validators, accounts, files and URLs are the same objects in every call of a history",
     ]
     active = eps()
-    scen_cfg, trace_cfg = write_cfgs(active)
-    # the exhaustive run is part of every run (also of development runs restricted with VERIF_C16_EPS):
-    # evidence.states / transitions are always those of THIS run
-    v.add_mc(vf.tlc_exhaustive(PID, "Robustness", "MC_Robustness.cfg", coverage=(tier == "thorough")))
-    sc = scenarios(tier, scen_cfg)
+    cfgs = write_cfgs(active)
+    # the exhaustive runs are part of every run (also of development runs restricted with VERIF_C16_EPS):
+    # evidence.states / transitions are always those of THIS run.  Independent of each other and of the
+    # scenario generation and the build of the driver: side by side.
+    if tier == "thorough":
+        mcs = [("Robustness", "MC_Robustness.cfg", 900), ("RobustnessInst", "MC_RobustnessInst_big.cfg", 1500)]
+    else:
+        mcs = [("Robustness", "MC_Robustness.cfg", 900), ("RobustnessInst", "MC_RobustnessInst.cfg", 900),
+               ("RobustnessInst", "MC_RobustnessInst_live.cfg", 900)]
+    with ThreadPoolExecutor(max_workers=8) as ex:
+        fm = [ex.submit(vf.tlc_exhaustive, PID, m, c, 4, to, "6g", tier == "thorough" and m == "Robustness") for m, c, to in mcs]
+        fs = ex.submit(self_checks, v)
+        fl = ex.submit(scenarios, tier, cfgs["Scen_Robustness"])
+        fb = ex.submit(build)
+        hs = histories(tier, cfgs)
+        for f in fm:
+            v.add_mc(f.result())
+        fs.result()
+        sc = fl.result()
+        fb.result()
     sizes = {}
     for s in sc:
         sizes[s["ep"]] = sizes.get(s["ep"], 0) + 1
     v.coverage["lattice_points_run"] = sizes
+    for h in hs:
+        h["sc"] = len(sc) + 1
+        sc.append(h)
     try:
-        check(v, sc, trace_cfg)
+        check(v, sc, cfgs)
     finally:
-        for name in ("Scen_Robustness_dev.cfg", "Trace_Robustness_dev.cfg"):   # development runs only
-            if os.path.exists(os.path.join(vf.SPEC, name)):
+        for name in os.listdir(vf.SPEC):   # development runs only
+            if name.endswith("_dev.cfg") and "Robustness" in name:
                 os.remove(os.path.join(vf.SPEC, name))
-    v.coverage["rule"] = ("one evaluation = one lattice point of Robustness!Shapes(ep) (enumerated by TLC) executed on the real "
-                          "code; non-trivial = the input was deliverable and reached Vouch (Outcome or Crash logged); "
-                          "distinct by entry point + shape")
+    v.coverage["rule"] = ("one evaluation = one lattice point of Robustness!Shapes(ep) (enumerated by TLC) executed on a fresh "
+                          "instance of the real code, or one TLC-generated history of calls (Scen_RobustnessInst) executed on ONE "
+                          "long-lived real instance; non-trivial = the input was deliverable and reached Vouch (lattice), at least "
+                          "two calls of the history came back on the same instance (history); distinct by entry point + shape (+ template)")
     return v.finish()
 
 
@@ -323,5 +510,6 @@ def replay(path):
     v = vf.Verdict(PID, "quick")
     with open(os.path.join(path, "scenario.json")) as fh:
         s = json.load(fh)
-    check(v, [s], "Trace_Robustness.cfg", full=False)
+    cfgs = {b: b + ".cfg" for b in ("Trace_Robustness", "Trace_RobustnessInst")}
+    check(v, [s], cfgs, full=False)
     return 1 if v.violations else 0
